@@ -194,10 +194,12 @@ CHECKS.update({
                   "reconstructions, nearest-node selection pattern, None-vs-truthiness defaults",
             CLAUSE + "Decides GL-RAMP (every bar puts exactly one sample step*min(k-NB, ND-k) on every node k strictly between "
             "the nearest nodes NB, ND of its end-points, and nothing else), GL-PACK (row k of `values` is the (k+1)-st largest "
-            "sample over each node, 0 where there are fewer, depth = largest count), GL-INDEX, GL-SNAP (nearest node per "
+            "sample over each node, 0 where there are fewer, depth = largest count), GL-VEC (exact->grid: row d is np.interp of "
+            "depth d's own breakpoints at the nodes of linspace(start, stop, num_steps), parameters forwarded, defaults = "
+            "support of the first depth), GL-INDEX, GL-SNAP (nearest node per "
             "coordinate, same axis), GL-FWD, GL-GRID, GL-DV, GL-INF, GL-DEFAULT. Together GL-SNAP+GL-RAMP+GL-PACK are the code's "
-            "side of the half-step bound; the bound itself (an inequality over real values), exactness on-grid and the "
-            "exact->grid interpolation are NOT decided.",
+            "side of the half-step bound; the bound itself (an inequality over real values) and exactness on-grid as numeric "
+            "statements are NOT decided.",
             "Trusted: np.linspace / np.interp semantics. Rules see through private helpers, temporaries and renaming; a "
             "restructuring beyond that yields refutations only for the listed deviations, otherwise exit 2.",
             "DESIGN.md §4 C08"),
